@@ -182,6 +182,45 @@ class Pools:
         self._pools.clear()
 
 
+def _isolate(phase: dict, shards: list, ctx: dict, mode, log, jobs: int = 8) -> dict:
+    import threading
+    from concurrent.futures import ThreadPoolExecutor
+
+    lock = threading.Lock()
+    state = {'out': {}, 'died': 0}
+
+    def add(part):
+        with lock:
+            state['out'] = merge(state['out'], part)
+
+    def one_shard(shard):
+        solo = Pools(1)
+        try:
+            add(solo.get(mode).submit(run_shard, phase['target'], phase['name'], shard, ctx).result())
+            return
+        except BrokenProcessPool:
+            pass
+        finally:
+            solo.close()
+        for case in shard:
+            one = Pools(1)
+            try:
+                add(one.get(mode).submit(run_shard, phase['target'], phase['name'], [case], ctx).result())
+            except BrokenProcessPool:
+                with lock:
+                    state['died'] += 1
+                add({'n': 1, 'violations': [{'kind': 'worker-process-dies', 'case': case,
+                                             'detail': 'the interpreter running this case alone in a fresh process died (crash, unbounded recursion or memory)'}]})
+            finally:
+                one.close()
+
+    with ThreadPoolExecutor(max_workers=max(1, jobs)) as ex:
+        list(ex.map(one_shard, shards))
+    if state['died'] > 20:
+        raise HarnessError(f'phase {phase["name"]}: {state["died"]} cases kill their worker process even when run alone')
+    return state['out']
+
+
 def run_phase(pools: Pools, phase: dict, ctx: dict, seed: int, log=print) -> dict:
     """phase = {name, target, cases, x64, chunk}; returns the merged result.
 
@@ -212,10 +251,16 @@ def run_phase(pools: Pools, phase: dict, ctx: dict, seed: int, log=print) -> dic
                 finished.add(futs[f])
         except BrokenProcessPool as e:
             restarts += 1
-            if restarts > 2:
-                raise HarnessError(f'worker pool died in phase {phase["name"]}: {e}')
-            log(f'[phase {phase["name"]}] a worker process was killed; restarting the pool for the {len(pending) - len(finished)} unfinished shards')
             pools.drop(mode)
+            if restarts > 2:
+                # the pool keeps dying: something in these shards kills the interpreter itself.  Run every remaining shard in a
+                # pool of its own, and the cases of a shard that dies one by one, so that the case is named in a violation
+                pending = [i for i in pending if i not in finished]
+                log(f'[phase {phase["name"]}] the pool died {restarts} times; isolating the {len(pending)} unfinished shards')
+                merged = merge(merged, _isolate(phase, [shards[i] for i in pending], ctx, mode, log, pools.jobs))
+                pending, finished = [], set()
+                break
+            log(f'[phase {phase["name"]}] a worker process was killed; restarting the pool for the {len(pending) - len(finished)} unfinished shards')
         pending = [i for i in pending if i not in finished]
     if merged.get('n', 0) != n:
         raise HarnessError(
